@@ -246,7 +246,16 @@ def run_shard(ctx: Ctx) -> None:
             raise Violation(msg, {"tree_pickle": pickle_b64(tree), "neg_pickle": pickle_b64(neg), "files": files})
 
     hyp_run(ctx, case(), body, ctx.n(4000, 40000))
+    # module trees edited in place and re-loaded by the same process: a type that an edit removed (or turned from enum
+    # into struct) must not stay resolvable (or keep its old kind) for the modules that were not touched
+    from props import c20
+
+    c20.run_sessions(ctx, 240, 4000)
 
 
 def replay(c: Dict[str, Any]) -> Optional[str]:
+    if c.get("kind") == "session":
+        from props import c20
+
+        return c20.check_session(unpickle_b64(c["tree_pickle"]), [tuple(x) for x in c["steps"]])
     return check(unpickle_b64(c["tree_pickle"]), unpickle_b64(c["neg_pickle"]))
